@@ -96,6 +96,15 @@ CHECKS = {
         title="Priority queues conserve items and honour priority order",
         technique="deterministic simulation (seeded schedules; weak-CAS, stall, thread-churn, early-timeout, spurious-wake-up, eager-reclamation faults) + Wing-Gong linearizability check of each recorded history against a max-priority multiset (FCPriorityQueue; MSPriorityQueue in phased programs with a simulator barrier) or a bag with capacity (MSPriorityQueue mixed programs)",
     ),
+    "C15": dict(
+        subjects=[(n, 1500, 30000) for n in ["tree.SkipListSet_HP", "tree.SkipListSet_DHP", "tree.SkipListSet_RCU_gpb", "tree.SkipListSet_RCU_shb", "tree.SkipListMap_HP", "tree.SkipListMap_RCU_gpi",
+                  "tree.EllenBinTreeSet_HP", "tree.EllenBinTreeSet_DHP", "tree.EllenBinTreeSet_RCU_gpb", "tree.EllenBinTreeMap_HP", "tree.EllenBinTreeMap_RCU_gpt",
+                  "tree.BronsonAVLTreeMap_gpb_injecting", "tree.BronsonAVLTreeMap_gpi_pool_monitor", "tree.BronsonAVLTreeMap_shb_injecting", "tree.BronsonAVLTreeMap_gpb_pointer"]],
+        classes=["not-linearizable", "functor-call-count", "traversal-order", "traversal-mismatch", "size-mismatch", "inconsistent-structure", "extract-minmax-false-empty", "extract-minmax-order"],
+        expect_probes=["bronson_rotations", "F10_eager_reclaim", "quiescent_traversals"],
+        title="Skip lists and trees are linearizable ordered sets and maps",
+        technique="deterministic simulation (seeded schedules and faults, forced skip-list tower heights) + Wing-Gong linearizability check against an ordered key->instance map, relaxed interval oracle for extract_min/extract_max, quiescent structure checks",
+    ),
 }
 
 NOT_APPLICABLE = [
